@@ -545,6 +545,10 @@ func regC20c(add addFn, p pFn) {
 }
 
 func regC10b(add addFn, p pFn) {
+	for _, rn := range []int{0, 1} {
+		add(&Instance{Property: "C10", Name: "session-refresh-renewable" + itoa(rn), Entry: "client.VH_C10_SessionRefresh", Params: p("renewable", rn, "maxseq", 1, "maxstr", 1), Stubs: []string{"lineartime", "kdcstub", "asn1havoc", "decryptstub", "randstub"}, Replay: "stubbed", TimeoutS: 600,
+			Reach: []string{"still-fresh"}, Bound: "a TGT session with arbitrary auth/end/renew-till instants; the KDC renews when asked (renewable=1) or is unreachable for the fresh login (renewable=0)"})
+	}
 	add(&Instance{Property: "C10", Name: "as-req-fields", Entry: "messages.VH_C10_ASReqFields", Stubs: []string{"lineartime"}, Replay: "stubbed",
 		Reach: []string{"checked", "renewable"}, Bound: "NewASReq for EVERY configuration of forwardable/proxiable/canonicalize, renew_lifetime and ticket_lifetime (any duration below 2^50 ns), two symbolic etypes, symbolic names; noaddresses"})
 	for _, et := range []int{17, 18, 19, 20, 16, 23} {
@@ -604,6 +608,8 @@ func regC02(add addFn, p pFn) {
 }
 
 func regC11(add addFn, p pFn) {
+	add(&Instance{Property: "C11", Name: "session-refresh-no-self-deadlock", Entry: "client.VH_C10_SessionRefresh", Params: p("renewable", 1, "maxseq", 1, "maxstr", 1), Stubs: []string{"lineartime", "kdcstub", "asn1havoc", "decryptstub", "randstub"}, Replay: "stubbed", TimeoutS: 600,
+		Reach: []string{"still-fresh", "refreshed"}, Bound: "one goroutine refreshing a TGT session near expiry: the call returns (no lock held across the refresh)"})
 	st := []string{"yieldlocks"}
 	for a := 0; a <= 4; a++ {
 		for b := a; b <= 4; b++ {
